@@ -481,6 +481,7 @@ impl WireEngine {
             }
 
             // execute in chunks
+            let mut executed = 0usize;
             for chunk in specs.chunks(1024) {
                 let mut inputs: Vec<(Vec<u8>, Vec<&'static str>)> = Vec::with_capacity(chunk.len());
                 let mut jobs = Vec::with_capacity(chunk.len());
@@ -490,6 +491,8 @@ impl WireEngine {
                     inputs.push((input, fired));
                 }
                 let observations = exec::run_jobs(jobs);
+                executed += observations.len();
+                let hang_stop = observations.len() < chunk.len();
                 for ((spec, (input, fired)), obs) in
                     chunk.iter().zip(inputs.iter()).zip(observations.iter())
                 {
@@ -585,6 +588,12 @@ impl WireEngine {
                         "build_profile_note": release_note(j.clause),
                     });
                     groups.insert(key, (1, doc, min_j.detail));
+                }
+                if hang_stop {
+                    // a decoder hung: the hung case is reported above; every further case could
+                    // cost another time-out, so the rest of this value set is not executed
+                    report.count("cases_skipped_after_hang", (specs.len() - executed) as u64);
+                    break;
                 }
             }
         }
